@@ -7,6 +7,7 @@ import (
 	"net"
 	"os"
 	"strings"
+	"syscall"
 	"time"
 
 	"github.com/wmnsk/go-pfcp/ie"
@@ -46,6 +47,14 @@ func runTmoBurst(c *ctx) {
 		e := newCtlEnv(c, netn, []int{1})
 		e.startServerT(uint8(x.maxRetrans), 0, 1, 0, time.Duration(x.rtoMs)*time.Millisecond)
 		smf := e.peers[1]
+		// the simulated SMF must not be the one that loses datagrams: a large receive buffer, and the socket is read all along
+		if rc, err := smf.SyscallConn(); err == nil {
+			rc.Control(func(fd uintptr) {
+				if syscall.SetsockoptInt(int(fd), syscall.SOL_SOCKET, 33 /* SO_RCVBUFFORCE */, 32<<20) != nil {
+					syscall.SetsockoptInt(int(fd), syscall.SOL_SOCKET, syscall.SO_RCVBUF, 32<<20)
+				}
+			})
+		}
 		seq := uint32(0)
 		rpc := func(m message.Message) message.Message {
 			b := make([]byte, m.MarshalLen())
@@ -103,6 +112,7 @@ func runTmoBurst(c *ctx) {
 		}
 		for _, up := range ups {
 			e.srv.NotifySessReport(report.SessReport{SEID: up, Reports: []report.Report{report.DLDReport{PDRID: 1, Action: report.APPLY_ACT_BUFF | report.APPLY_ACT_NOCP}}})
+			collect()
 		}
 		// hold the loop inside a data-plane call while the timers expire
 		e.drv.mu.Lock()
@@ -118,7 +128,7 @@ func runTmoBurst(c *ctx) {
 		end := time.Now().Add(time.Duration(x.stallMs+(x.maxRetrans+2)*x.rtoMs+1500) * time.Millisecond)
 		for time.Now().Before(end) {
 			collect()
-			time.Sleep(5 * time.Millisecond)
+			time.Sleep(500 * time.Microsecond)
 		}
 		e.fence(2 * time.Second)
 		collect()
